@@ -122,8 +122,8 @@ func init() {
 				n = 6000
 			}
 			return fw.Meta{N: n, Level: "exploration", Chunk: 2, CaseTimeoutS: 300, MinNT: 80, Workers: 8,
-				Rule:        "one case = one recorded history: 3..6 client goroutines issue 150..400 calls each (40% Put with unique values, 15% Delete, 45% Get) on 2..5 keys against one real database with a memstore limit of 10..60 bytes (below the footprint of the key universe, so nearly every write rotates), while either the real background compactor runs on a 50 us..1 ms ticker (even cases) or a chaos goroutine forces rotations and runs compaction cycles through the tag-guarded helpers (odd cases), and seeded delays (0..2 ms sleeps or yield bursts) are armed at the hook points that lie BETWEEN critical sections (flush begin, before the flushed table becomes visible, after compaction selection, before the compaction result is reflected) and one INSIDE the reflection's critical section (inputs removed, result not yet renamed — it cannot create an interleaving the locks forbid, it only widens the window for a lock that is missing); every ~20th Get is additionally parked for 150 us right after it has picked up the stacked table reader (a legal preemption point). Call/return stamps come from one monotonic clock at the client boundary; the history is checked per key with porcupine against a single-register model (timeout = inconclusive). Non-trivial: >=5 flushes and >=1 compaction completed inside the client activity window and some key has >=2 overlapping calls; distinct by history hash",
-				MinObs:      map[string]int64{"histories_checked": 100, "client_calls": 50000, "flushes_inside_window": 5000, "compactions_inside_window": 300, "overlapping_call_pairs_same_key": 2000, "hook_delays_executed": 200},
+				Rule:        "one case = one recorded history: 3..6 client goroutines issue 150..400 calls each (40% Put with unique values, 15% Delete, 45% Get) on 2..5 keys against one real database with a memstore limit of 10..60 bytes (below the footprint of the key universe, so nearly every write rotates), while either the real background compactor runs on a 50 us..1 ms ticker (even cases) or a chaos goroutine forces rotations and runs compaction cycles through the tag-guarded helpers (odd cases), and seeded delays (0..2 ms sleeps or yield bursts) are armed at the hook points that lie BETWEEN critical sections (flush begin, before the flushed table becomes visible, after compaction selection, before the compaction result is reflected) and one INSIDE the reflection's critical section (inputs removed, result not yet renamed — it cannot create an interleaving the locks forbid, it only widens the window for a lock that is missing); every ~20th Get is additionally parked for 150 us right after it has picked up the stacked table reader (a legal preemption point). Call/return stamps come from one monotonic clock at the client boundary; the history is checked per key with porcupine against a single-register model (timeout = inconclusive). Every 10th history additionally has a FAILING rotation (a directory is planted where one of the next WAL files would be created when the clients are 25..70% through): mutations that return an error afterwards stay in the history as open calls that may or may not have taken effect (the model state is the set of possible register values), Gets must keep succeeding, the chaos goroutine keeps attempting rotations. Non-trivial: >=5 flushes and >=1 compaction completed inside the client activity window and some key has >=2 overlapping calls; distinct by history hash",
+				MinObs:      map[string]int64{"histories_checked": 100, "client_calls": 50000, "flushes_inside_window": 5000, "compactions_inside_window": 300, "overlapping_call_pairs_same_key": 2000, "hook_delays_executed": 200, "histories_with_a_failing_rotation": 10, "mutations_that_returned_an_error_kept_as_open_calls": 200},
 				Assumptions: []string{"explores the interleavings that the scheduler, the injected delays and the chaos goroutine produce, not all of them"},
 			}
 		},
